@@ -1061,7 +1061,7 @@ def gen_cumulene(ctx):
         bonds = [(i + 1, i + 2, 2 if i % 2 else 1) for i in range(2 * k + 1)]
         yield from emit(f'polyene[{k}]', atoms, bonds, copies=3)
     # random graphs rich in double bonds (degree <= 4, random elements incl. H, metals, halogens), no marks required
-    ZS = [6, 6, 6, 6, 7, 8, 16, 15, 1, 9, 26, 14, 5, 3]
+    ZS = [6, 6, 6, 6, 7, 8, 16, 15, 1, 9, 26, 14, 5, 3, 17, 33, 34, 53]
     for t in range(150 if quick else 1500):
         n = rng.randint(2, 14)
         atoms = [{'n': i + 1, 'z': rng.choice(ZS), 'h': 0} for i in range(n)]
